@@ -432,10 +432,10 @@ def _sl_fb(name, params):
 
 # ------------------------------------------------------------------ residual statements, verbatim
 SKELETONS = {
-    # (file, class, function): expected statements (docstrings dropped)
+    # (file, class, function): expected statements modulo local names (v0, v1, ..), message texts, docstrings
     (MS, "HasObservables", "notify"): [
-        "signal = AttributeDict(name=observable, old=old_value, new=new_value, owner=self, type=signal_type, **kwargs)",
-        "self._mesa_notify(signal)"],
+        "v0 = AttributeDict(name=observable, old=old_value, new=new_value, owner=self, type=signal_type, **kwargs)",
+        "self._mesa_notify(v0)"],
     (MS, "BaseObservable", "__set__"): [
         "instance.notify(self.public_name, getattr(instance, self.private_name, self.fallback_value), value, 'change')"],
     (OC, "ObservableList", "__set__"): [
@@ -450,8 +450,15 @@ SL_METHODS = ["__init__", "__setitem__", "__delitem__", "__getitem__", "__len__"
 
 
 def _stmts(fn):
-    return [ast.unparse(s) for s in fn.body
-            if not (isinstance(s, ast.Expr) and isinstance(s.value, ast.Constant) and isinstance(s.value.value, str))]
+    """statements modulo the names of local variables, exception message texts, docstrings, comments, formatting"""
+    import copy
+
+    fn = copy.deepcopy(fn)
+    for n in ast.walk(fn):
+        if isinstance(n, ast.Raise) and isinstance(n.exc, ast.Call) and n.exc.args \
+                and all(isinstance(x, ast.JoinedStr) or (isinstance(x, ast.Constant) and isinstance(x.value, str)) for x in n.exc.args):
+            n.exc.args = [ast.Name(id="MSG", ctx=ast.Load())]
+    return pyexpr.normalized_statements(fn)
 
 
 def c_glue():
